@@ -21,6 +21,9 @@ var VerifHooks struct {
 	NewLocker func() sync.Locker
 	// NewPoolLocker, when set, supplies the locker of connection pools (falls back to NewLocker).
 	NewPoolLocker func() sync.Locker
+	// NewMux, when set, is told about every new connection multiplexer (a *mux), so that the harness can
+	// give its wires stable names and pin the parallelism it derives from GOMAXPROCS.
+	NewMux func(m any)
 }
 
 func verifYield(ctx context.Context, site string, obj any, cmd Completed) {
@@ -64,6 +67,13 @@ func verifPool(p *pool) {
 		p.cond = sync.NewCond(f())
 	} else if VerifHooks.NewLocker != nil {
 		p.cond = sync.NewCond(verifLocker())
+	}
+}
+
+// verifMux announces a new multiplexer to the harness.
+func verifMux(m *mux) {
+	if f := VerifHooks.NewMux; f != nil {
+		f(m)
 	}
 }
 
